@@ -47,7 +47,7 @@ $(BUILD)/pm_base: $(BUILD)/pm_base.o $(BUILD)/core.o $(PMB_OBJS)
 	$(CXX) $(LDFLAGS_ASAN) $^ -o $@
 
 # pm_hist: a few configurations per translation unit
-PMH_TUS = 0 1 2 3 4 5 6 7 8 9 10 11 12 13 14 15 16 17 18 19 20 21
+PMH_TUS = 0 1 2 3 4 5 6 7 8 9 10 11 12 13 14 15 16 17 18 19 20 21 22
 $(foreach k,$(PMH_TUS),$(BUILD)/pm_hist_cfg_$(k).o): $(BUILD)/pm_hist_cfg_%.o: /verif/engines/pm_hist_cfg.cpp
 	@mkdir -p $(BUILD)
 	$(CXX) $(CXXFLAGS_COMMON) $(SAN) $(INC) -DPMH_TU=$* -c $< -o $@
